@@ -98,3 +98,9 @@ claim('C10', 'c10_expand.c',
       'within the buffer limit, and therefore depends on no unwritten stack or heap byte (scratch buffers start nondeterministic); the same texts in exact-size objects show no read '
       'past the terminator; %put/%get/%version skeletons and the variable store (one step from every sorted store) are checked against their oracles.',
       'DESIGN.md section 4, C10')
+claim('C16', 'c16_null.h',
+      'CBMC check generated from a frozen NULL-argument contract: each guarded pointer parameter of each exported entry point set to NULL, other arguments valid objects, runtime debug level symbolic, leak check on',
+      'For each of the guarded parameters in spec/null_contract.json (regenerated against the current headers on every run) the solver shows: at debug level 0 the call returns its documented '
+      'failure value without a memory fault and without leaving an allocation behind; at any level >= 1 it either does the same or ends through libast_fatal_error() with a diagnostic - '
+      'never by dereferencing the NULL object. The level is one symbolic unsigned int per query.',
+      'DESIGN.md section 4, C16')
